@@ -623,7 +623,9 @@ pub fn run_check(def: &PropDef, tier: Tier, seed: u64, max_items: Option<u64>) -
                     "tokio_util::codec::{FramedRead,FramedWrite}, futures, httparse, serde_json, lsp-types"
                 ],
                 "stub": [
-                    "tokio runtime: scheduler, spawn, JoinHandle, runtime shutdown (simtokio executor)",
+                    "tokio runtime: scheduler, spawn, JoinHandle (incl. abort), runtime shutdown (simtokio executor)",
+                    "tokio::time (sleep, timeout, interval, Instant): simulated clock on logical ticks, unused by the pinned tree",
+                    "thread stacks: 256 MiB worker threads, except the nesting ladder of C02 (child process, 2 MiB, the size of a tokio worker stack)",
                     "tokio::io::{Stdin,Stdout} and the OS pipes behind them",
                     "std::process::exit (exit seam)",
                     "the client (scripted actor with its own document model)",
